@@ -68,14 +68,14 @@ the reader IS the specification `Opt/WcollSpec.lean` (same expressions in the sa
 per skipped second reach, same error status); for the repaired reader without any length condition.
 END TO END (`target_list_end_to_end`): with C02's model of `wcoll_arg_process` / exclusion / regex filters and
 C01's `hostlist_create` / re-expansion, the hosts pdsh goes on with are the expansion of every target word in
-source order (files inlined, WCOLL iff no target source) minus the excluded names, filtered — in ONE decidable
+source order (files and standard input inlined, WCOLL iff no target source) minus the excluded names, filtered — in ONE decidable
 domain `targetDomain`; starts from the argument TEXTS (`Seg.text`), the file BYTES (`fs`, any `mode` incl. the
 byte-level `.glued`) and the environment (`wenv`); the empty list is refused with exit 1 (`no_source_no_list`,
 `empty_list_exit1`).
 DESCRIPTORS (`descriptors_balanced`, `open_files_le_depth`): every stream the reader opens is closed when
 `wcoll_ctx_read_file` returns, one stream per include level at most (ghost counter, erasable).
-Not proved here: a stdin segment (`^-`) inside `target_list_end_to_end` (C02's file table is a static lookup; stdin
-is covered by `assemble_refines`);  dirname(3)/access(2)/fgets(3) themselves (modelled);  NUL bytes in files;  the
+Not proved here: a SECOND stdin source inside `target_list_end_to_end` (C02's file table is a static lookup; the
+domain asks for at most one `-`; `stdin_read_once` says what the second one reads);  dirname(3)/access(2)/fgets(3) themselves (modelled);  NUL bytes in files;  the
 `:`-split of the command-line file's directory (`colon_dir_witness`, outside the domain).
 -/
 namespace PdshVerif.Props.C10
@@ -604,7 +604,8 @@ open PdshVerif.Hostlist PdshVerif.Opt.Targets
 
 /-- TARGET LIST, END TO END.  The command line is a list of segments in the order `wcoll_arg_process` sees
 them: `-w` words (plain, one or TWO pairs of brackets), `^file` (its expressions, includes inlined, standing
-where the file stands), `-x` words, the exclusion files (`-x ^file`, dash `^file`), the regex words (`/re/`, and
+where the file stands), standard input (`-w -` = `^-`: the segment `tfile "-"`, its bytes = `stdin`, includes
+looked up in `.`), `-x` words, the exclusion files (`-x ^file`, dash `^file`), the regex words (`/re/`, and
 the same behind a dash); `wenv` = WCOLL.  In the domain `targetDomain` (ONE decidable predicate: the conjunction
 of the domains of C01's `create_word` / `wcoll_expand₂`, C02's `exclusion_correct` and C10's
 `file_source_spec_partial`), with D1, D17, D19 and F02-2BR repaired (the order of /repo: `wcoll_expand` before
@@ -617,15 +618,15 @@ yields exactly: the expansion (C01's `expand₂`) of every target word in source
 (`WcollSpec.fileHosts`, the property-level reading with includes), minus every excluded name, filtered by every
 regex. -/
 theorem target_list_end_to_end (cfg : Cfg) (hD1 : cfg.fixDeleteAll = true) (hD17 : cfg.fixIterSuffix = true)
-    (hD19 : cfg.fixRemoveDepth = true) (h2Br : cfg.fix2Br = true) (mode : LineMode) (fs : FS)
+    (hD19 : cfg.fixRemoveDepth = true) (h2Br : cfg.fix2Br = true) (mode : LineMode) (fs : FS) (stdin : List Char)
     (rematch : List Char → List Char → Option Bool)
     (badre : List Char → Bool) (segs : List Seg) (wenv : Option (List Char × List Spec.Word))
-    (hdom : targetDomain cfg mode fs rematch badre segs wenv = true) :
-    targetList cfg (envOf mode fs rematch badre segs wenv) (wenv.map (·.1)) (segs.map Seg.text) =
+    (hdom : targetDomain cfg mode fs stdin rematch badre segs wenv = true) :
+    targetList cfg (envOf mode fs stdin rematch badre segs wenv) (wenv.map (·.1)) (segs.map Seg.text) =
       .ok ((((Spec.expand₂ (tgtWords segs wenv)).filter
               fun h => !(segs.flatMap Seg.xnames).contains h).filter
-            (Exclude.keepAll (envOf mode fs rematch badre segs wenv) (segs.flatMap Seg.reg)))) :=
-  targetList_correct cfg hD1 hD17 hD19 h2Br mode fs rematch badre segs wenv hdom
+            (Exclude.keepAll (envOf mode fs stdin rematch badre segs wenv) (segs.flatMap Seg.reg)))) :=
+  targetList_correct cfg hD1 hD17 hD19 h2Br mode fs stdin rematch badre segs wenv hdom
 
 /-- without WCOLL the composed function IS C02's `cliWords` (the function `exclusion_correct` speaks about) -/
 theorem target_list_is_cliWords (cfg : Cfg) (env : Exclude.Env) (words : List (List Char)) :
@@ -655,21 +656,46 @@ def siteSegs : List Seg :=
 def siteMatch : List Char → List Char → Option Bool := fun p h => if p = "3".toList then some (h.contains '3') else none
 
 /-- the domain is inhabited by a command line with an include file and an exclusion file (decided) -/
-example : targetDomain Cfg.repaired .whole siteFS siteMatch (fun _ => false) siteSegs none = true := by decide
+example : targetDomain Cfg.repaired .whole siteFS [] siteMatch (fun _ => false) siteSegs none = true := by decide
 
 /-- ... and through the theorem: n[1-3] and m7 from the file, r[1-2]n[1-2]; m7 and r1n2 excluded by the exclusion
     file, n3 dropped by the regex -/
-example : targetList Cfg.repaired (envOf .whole siteFS siteMatch (fun _ => false) siteSegs none) none
+example : targetList Cfg.repaired (envOf .whole siteFS [] siteMatch (fun _ => false) siteSegs none) none
     (siteSegs.map Seg.text) =
     .ok ["n1".toList, "n2".toList, "r1n1".toList, "r2n1".toList, "r2n2".toList] := by
-  have h := target_list_end_to_end Cfg.repaired rfl rfl rfl rfl .whole siteFS siteMatch (fun _ => false) siteSegs none
+  have h := target_list_end_to_end Cfg.repaired rfl rfl rfl rfl .whole siteFS [] siteMatch (fun _ => false) siteSegs none
     (by decide)
   rw [show (none : Option (List Char × List Spec.Word)).map (·.1) = none from rfl] at h
   rw [h]
   decide
 
+/-- `printf 'n[1-2]\\n#include d/more\\n' | pdsh -w - -w k1 -x ^d/down`: STANDARD INPUT as a source (read by
+    the byte-level reader, its include looked up in `.`), a word after it, an exclusion file with the same include -/
+def stdinSegs : List Seg :=
+  [.tfile "-".toList [.br "n".toList [⟨"1".toList, some "2".toList⟩] [] none, .plain "m7".toList],
+   .cw (.tgt (.plain "k1".toList)),
+   .xfile "d/down".toList [.plain "m7".toList, .plain "r1n2".toList]]
+
+def stdinFS : FS := siteFS ++ [⟨"./d/more".toList, true, "m7 # spare\n".toList⟩]
+
+example : targetDomain Cfg.repaired repairedReader stdinFS "n[1-2]\n#include d/more\n".toList siteMatch (fun _ => false)
+    stdinSegs none = true := by decide
+
+example : targetList Cfg.repaired (envOf repairedReader stdinFS "n[1-2]\n#include d/more\n".toList siteMatch
+      (fun _ => false) stdinSegs none) none (stdinSegs.map Seg.text) =
+    .ok ["n1".toList, "n2".toList, "k1".toList] := by
+  have h := target_list_end_to_end Cfg.repaired rfl rfl rfl rfl repairedReader stdinFS
+    "n[1-2]\n#include d/more\n".toList siteMatch (fun _ => false) stdinSegs none (by decide)
+  rw [show (none : Option (List Char × List Spec.Word)).map (·.1) = none from rfl] at h
+  rw [h]
+  decide
+
+/-- two stdin sources are outside the domain (the second finds end of file: `stdin_read_once`) -/
+example : targetDomain Cfg.repaired .whole [] "a\n".toList (fun _ _ => none) (fun _ => false)
+    [.tfile "-".toList [.plain "a".toList], .tfile "-".toList [.plain "a".toList]] none = false := by decide
+
 /-- the same list named by WCOLL alone (no target segment): WCOLL's file is read -/
-example : targetDomain Cfg.repaired .whole siteFS siteMatch (fun _ => false)
+example : targetDomain Cfg.repaired .whole siteFS [] siteMatch (fun _ => false)
     [.cw (.xcl (.plain "n2".toList))]
     (some ("d/all".toList, [.br "n".toList [⟨"1".toList, some "3".toList⟩] [] none, .plain "m7".toList])) = true := by
   decide
@@ -714,11 +740,11 @@ theorem empty_list_exit1 (r : Exclude.Res) (hr : r = .nohosts ∨ r = .ok [])
   simp [PdshVerif.Opt.optVerify, PdshVerif.Opt.optVerifyPlain, hl, hplain.1, hplain.2]
 
 /-- `pdsh -w n1,n2 -x n[1-2]`: every target is excluded — through `target_list_end_to_end` the list is empty -/
-example : targetList Cfg.repaired (envOf .whole [] (fun _ _ => none) (fun _ => false)
+example : targetList Cfg.repaired (envOf .whole [] [] (fun _ _ => none) (fun _ => false)
       [.cw (.tgt (.plain "n1".toList)), .cw (.tgt (.plain "n2".toList)),
        .cw (.xcl (.br "n".toList [⟨"1".toList, some "2".toList⟩] [] none))] none) none
     ["n1".toList, "n2".toList, "-n[1-2]".toList] = .ok [] := by
-  have h := target_list_end_to_end Cfg.repaired rfl rfl rfl rfl .whole [] (fun _ _ => none) (fun _ => false)
+  have h := target_list_end_to_end Cfg.repaired rfl rfl rfl rfl .whole [] [] (fun _ _ => none) (fun _ => false)
     [.cw (.tgt (.plain "n1".toList)), .cw (.tgt (.plain "n2".toList)),
      .cw (.xcl (.br "n".toList [⟨"1".toList, some "2".toList⟩] [] none))] none (by decide)
   rw [show (none : Option (List Char × List Spec.Word)).map (·.1) = none from rfl] at h
